@@ -19,7 +19,7 @@ func init() { core.Register(c19{}) }
 func (c19) ID() string    { return "C19" }
 func (c19) Level() string { return "exploration" }
 func (c19) Rule() string {
-	return "cases = command sequences of 50..400 commands over 3..6 keys x 3..5 fields/members mixing strings with TTL (0, +10^4 h, -1 h, 250 years, MaxInt64 only: expiry never depends on when the check runs), hashes, sets, lists (push/pop at both ends, pops on empty lists) and sorted sets (score updates, re-adding with the same score), wrong-type commands on every type pair, Del + re-creation with another type, commands on expired strings, and 1..4 restarts; store with small DataFileSize so that structure updates span rotations, all index types and both I/O types. Every reply is normalised to an abstract outcome (present(v) / absent / bool / size / score / type / wrong-type) and compared with an in-memory reference model of the five types, immediately and again for a full read-back of all keys/fields/members after every restart. Non-trivial: sequence using >=4 of the 5 types, >=1 wrong-type reply, >=1 Del + re-creation and >=1 restart; distinct = hash of (config, command log)"
+	return "cases = command sequences of 50..400 commands over 3..6 keys x 3..5 fields/members mixing strings with TTL (0, +10 min, +1 h, +10^4 h, -1 ms, -1 h, 250 years, MaxInt64: the nearest deadline is 10 minutes away, so expiry never depends on when the check runs), hashes, sets, lists (push/pop at both ends, pops on empty lists) and sorted sets (score updates, re-adding with the same score), wrong-type commands on every type pair, Del + re-creation with another type, commands on expired strings, and 1..4 restarts; store with small DataFileSize so that structure updates span rotations, all index types and both I/O types. Every reply is normalised to an abstract outcome (present(v) / absent / bool / size / score / type / wrong-type) and compared with an in-memory reference model of the five types, immediately and again for a full read-back of all keys/fields/members after every restart. Non-trivial: sequence using >=4 of the 5 types, >=1 wrong-type reply, >=1 Del + re-creation and >=1 restart; distinct = hash of (config, command log)"
 }
 func (c19) Assumptions() []string {
 	return []string{"absence encodings ((nil,nil), ErrKeyNotFound, (-1,nil)) are normalised to `absent`", "string values are non-empty; hash fields and list elements may be empty, in which case HGet/LPop/RPop replies are compared modulo `empty == absent` (the API cannot tell them apart) while HSet/HDel flags and sizes are compared exactly",
@@ -261,7 +261,9 @@ func (c19) Run(c core.Case, w *core.Worker) core.Result {
 			switch cmd := r.Intn(19); cmd {
 			case 0: // Set
 				// "for ever" TTLs overflow the stored deadline; they must behave as far future
-				ttl := []time.Duration{0, 10000 * time.Hour, -time.Hour, time.Duration(1<<63 - 1), 250 * 365 * 24 * time.Hour}[r.Intn(5)]
+				// +10 min / +1 h are "present now" with a margin no run comes near; they expose a
+				// deadline computed in the wrong unit (the key would already have expired)
+				ttl := []time.Duration{0, 10000 * time.Hour, -time.Hour, time.Duration(1<<63 - 1), 250 * 365 * 24 * time.Hour, 10 * time.Minute, time.Hour, -time.Millisecond}[r.Intn(8)]
 				v := val()
 				logl = append(logl, fmt.Sprintf("Set(%s,len=%d,ttl=%v)", k, len(v), ttl))
 				err := svc.Set(kb, v, ttl)
